@@ -2761,7 +2761,8 @@ class SEVM:
         size: int = ex.int_of(ex.st.pop(), "symbolic CREATE size")
 
         if op == OP_CREATE2:
-            salt = ex.st.pop()
+            # note: the salt may be a Bool-typed word (a comparison result)
+            salt = ex.st.popi()
 
         # check if there is an active prank
         pranked_caller, pranked_origin = ex.resolve_prank(con_addr(0))
@@ -2779,8 +2780,9 @@ class SEVM:
 
             if is_bv(create_hexcode):
                 create_hexcode = simplify(create_hexcode)
-            else:
+            elif len(create_hexcode) > 0:
                 create_hexcode = bytes_to_bv_value(create_hexcode)
+            # note: empty init code stays b"" (there is no 0-bit bitvector), sha3_data handles it
 
             code_hash = ex.sha3_data(create_hexcode)
             hash_data = simplify(
